@@ -18,5 +18,6 @@ CONSTANTS
   Coarse = FALSE
   MutPrecedence = FALSE
   MutNoCatch = FALSE
-  KilledMayRaise = FALSE
+  MutKilledEscapes = FALSE
+  KilledMayRaise = TRUE
 INVARIANTS TypeOK PassOnlyIfClean CleanPasses VerdictIsPrecedence OrderIndependence NoLostCounterexampleStrict OrderIndependenceNoEarly ExitNonZeroIffNotAllPass ValidNeverAbstract OneOutputPerQuery ShutdownOnlyAfterValid
